@@ -4,6 +4,9 @@
 //!        engine replay <file>
 
 mod common;
+mod c01;
+mod c02;
+mod c07;
 mod c08;
 mod c09;
 mod c10;
@@ -12,10 +15,13 @@ mod c12;
 mod c13;
 mod c15;
 mod c16;
+mod c17;
 mod c18;
 mod c19;
 mod corpus;
 mod e1;
+mod e2;
+mod gen;
 mod oracles;
 mod strings;
 
@@ -60,7 +66,11 @@ fn main() {
     let c = init_ctx(id, tier, level_of(id));
     start_watchdog();
     let r = guarded(|| match id {
+        "C01" => c01::run(tier),
+        "C02" => c02::run(tier),
         "C03" => e1::run_c03(tier),
+        "C07" => c07::run(tier),
+        "C17" => c17::run(tier),
         "C04" => e1::run_c04(tier),
         "C05" => e1::run_c05(tier),
         "C06" => e1::run_c06(tier),
@@ -110,7 +120,7 @@ fn replay(path: &str) -> i32 {
     init_ctx(id, Tier::Quick, level_of(id));
     println!("replaying {id} case: {case}");
     let vs: Vec<Violation> = match id {
-        "C03" | "C04" | "C05" | "C06" | "C14" | "C15" | "C17" => {
+        "C03" | "C04" | "C05" | "C06" | "C14" | "C15" => {
             let input = case["input"].as_str().unwrap_or("");
             let cfgs: Vec<strings::Config> = if case.get("configs").is_some() {
                 case["configs"].as_array().unwrap().iter().map(strings::Config::from_json).collect()
@@ -143,6 +153,10 @@ fn replay(path: &str) -> i32 {
         "C08" => c08::replay(case),
         "C18" => c18::replay(case),
         "C19" => c19::replay(case),
+        "C01" => c01::replay(case, c01::What::Recipe),
+        "C02" => c02::replay(case),
+        "C07" => c07::replay(case),
+        "C17" => c17::replay(case),
         "C16" => c16::replay(case),
         _ => {
             eprintln!("engine: replay not supported for {id}");
